@@ -43,6 +43,9 @@ type Root struct {
 	subLock       sync.Mutex
 	excludeTime   bool
 	excludeInt64  bool
+
+	// undoExtends take back the extensions applied by the load in progress.
+	undoExtends []func()
 }
 
 // NewRoot creates a new GraphQL schema root with a root resolver object. The
@@ -294,11 +297,74 @@ func (root *Root) addExtends(extends ...*Extend) (err error) {
 		if reflect.TypeOf(x.Adds) != reflect.TypeOf(cur) {
 			return fmt.Errorf("%w: %s, a %T can not extend a %T", ErrTypeMismatch, x.Adds.Name(), x.Adds, cur)
 		}
+		root.undoExtends = append(root.undoExtends, extendUndo(cur))
 		if err = cur.Extend(x.Adds); err != nil {
 			return
 		}
 	}
 	return nil
+}
+
+// extendUndo returns a function that takes back whatever an Extend call adds
+// to t after this point. An extension only appends to the type's lists. The
+// types being extended are shared with the tables saved for reverting a
+// failed load so they have to be put back as well.
+func extendUndo(t Type) func() {
+	switch tt := t.(type) {
+	case *Object:
+		return objectExtendUndo(tt)
+	case *Schema:
+		return objectExtendUndo(&tt.Object)
+	case *Interface:
+		nf, nd := len(tt.fields.list), len(tt.Dirs)
+		return func() {
+			for _, f := range tt.fields.list[nf:] {
+				delete(tt.fields.dict, f.N)
+			}
+			tt.fields.list = tt.fields.list[:nf]
+			tt.Dirs = tt.Dirs[:nd]
+		}
+	case *Union:
+		nm, nd := len(tt.Members), len(tt.Dirs)
+		return func() {
+			tt.Members = tt.Members[:nm]
+			tt.Dirs = tt.Dirs[:nd]
+		}
+	case *Enum:
+		nv, nd := len(tt.values.list), len(tt.Dirs)
+		return func() {
+			for _, ev := range tt.values.list[nv:] {
+				delete(tt.values.dict, string(ev.Value))
+			}
+			tt.values.list = tt.values.list[:nv]
+			tt.Dirs = tt.Dirs[:nd]
+		}
+	case *Input:
+		nf, nd := len(tt.fields.list), len(tt.Dirs)
+		return func() {
+			for _, f := range tt.fields.list[nf:] {
+				delete(tt.fields.dict, f.N)
+			}
+			tt.fields.list = tt.fields.list[:nf]
+			tt.Dirs = tt.Dirs[:nd]
+		}
+	case *Scalar:
+		nd := len(tt.Dirs)
+		return func() { tt.Dirs = tt.Dirs[:nd] }
+	}
+	return func() {}
+}
+
+func objectExtendUndo(t *Object) func() {
+	nf, ni, nd := len(t.fields.list), len(t.Interfaces), len(t.Dirs)
+	return func() {
+		for _, f := range t.fields.list[nf:] {
+			delete(t.fields.dict, f.N)
+		}
+		t.fields.list = t.fields.list[:nf]
+		t.Interfaces = t.Interfaces[:ni]
+		t.Dirs = t.Dirs[:nd]
+	}
 }
 
 // GetType returns the type that matches the provided name or nil if none
@@ -333,6 +399,7 @@ func (root *Root) ParseReader(r io.Reader) error {
 	origSchema := root.schema
 	root.types = origTypes.dup()
 	root.dirs = origDirs.dup()
+	root.undoExtends = nil
 
 	types, extends, err := parseSDL(root, r)
 	if err == nil {
@@ -349,7 +416,11 @@ func (root *Root) ParseReader(r io.Reader) error {
 		root.types = origTypes
 		root.dirs = origDirs
 		root.schema = origSchema
+		for i := len(root.undoExtends) - 1; 0 <= i; i-- {
+			root.undoExtends[i]()
+		}
 	}
+	root.undoExtends = nil
 	return err
 }
 
